@@ -7,6 +7,7 @@ import (
 	"net/http"
 	"net/http/httputil"
 	"net/url"
+	"strconv"
 	"strings"
 	"sync"
 	"time"
@@ -208,6 +209,8 @@ func deleteCookieHandler(handler http.Handler, cookieName string) http.Handler {
 // newSigningHandler creates middleware that signs requests using the configured signing method.
 func newSigningHandler(handler http.Handler, config *UpstreamConfig, signer *RequestSigner) http.Handler {
 	return http.HandlerFunc(func(rw http.ResponseWriter, req *http.Request) {
+		normalizeContentLength(req)
+
 		if config.HMACAuth != nil {
 			config.HMACAuth.SignRequest(req)
 		}
@@ -218,6 +221,22 @@ func newSigningHandler(handler http.Handler, config *UpstreamConfig, signer *Req
 
 		handler.ServeHTTP(rw, req)
 	})
+}
+
+// normalizeContentLength makes the Content-Length header that is about to be signed equal to the
+// one the upstream will receive. The transport does not forward the client's header: it writes
+// its own from req.ContentLength (decimal, no leading zeros), adds "Content-Length: 0" to
+// POST, PUT and PATCH requests that have no body, and omits the header from other requests
+// without a body and from chunked requests.
+func normalizeContentLength(req *http.Request) {
+	switch {
+	case req.ContentLength > 0:
+		req.Header.Set("Content-Length", strconv.FormatInt(req.ContentLength, 10))
+	case req.ContentLength == 0 && (req.Method == "POST" || req.Method == "PUT" || req.Method == "PATCH"):
+		req.Header.Set("Content-Length", "0")
+	default:
+		req.Header.Del("Content-Length")
+	}
 }
 
 // newTimeoutHandler creates a new TimeoutHandler middleware with a preconfigured message based on service name and timeout
